@@ -79,7 +79,14 @@ func (x *Exec) callExtern(p *Path, callee *ssa.Function, _ string, args []SV, re
 	case "fmt.Errorf":
 		n := x.fresh("err")
 		p.declare(n, "Int")
-		bindRes(SV{K: KTerm, T: "(VErr " + n + ")", S: SVal})
+		res := "(VErr " + n + ")"
+		// ghost: the line number an error message cites is its last integer argument (-1: none)
+		va := args[1]
+		if va.K == KSlice {
+			last := fmt.Sprintf("(select (select (Mem %s) %s) (+ %s (- %s 1)))", p.H, va.Arr, va.Off, va.Len)
+			p.assume(fmt.Sprintf("(= (errLine %s) (ite (and (> %s 0) ((_ is VInt) %s)) (vint %s) (- 1)))", res, va.Len, last, last))
+		}
+		bindRes(SV{K: KTerm, T: res, S: SVal})
 		return true
 	}
 	ct := x.cf.ByFunc[key]
